@@ -73,12 +73,12 @@ type histRun struct {
 	rcs   map[*WSClient]*RefClient
 	res   *HistResult
 	// maybePending[conn][rid]: a request touching rid may be unanswered
-	maybePending  map[int]map[string]bool
-	reqTarget     map[int]map[uint64]string // call/new requests → target rid
-	driftTag      map[string]string         // "cid rid" → known-finding tag of a counter seen off before
+	maybePending map[int]map[string]bool
+	reqTarget    map[int]map[uint64]string // call/new requests → target rid
+	driftTag     map[string]string         // "cid rid" → known-finding tag of a counter seen off before
 	// ppoints: clock values at which the gateway was idle with at most service
 	// requests outstanding (everything published before has been processed)
-	ppoints []int64
+	ppoints       []int64
 	stepNo        int
 	callSeq       int
 	closedAt      map[int]int64 // clock when a client was closed
